@@ -22,7 +22,8 @@ var DefaultModelOptions = []resource.Option{
 	WithActiveModeOption(resource.WithNoDuplicates()),
 	WithModeOption(resource.WithNoDuplicates()),
 	WithClock(clock.Real()),
-	WithRNG(rand.New(rand.NewSource(rand.Int63()))),
+	// no default WithRNG: each resource creates its own source of randomness,
+	// a source created here would be shared (unsynchronised) by every model.
 }
 var defaultInitialVoltage float32 = 240
 
